@@ -221,6 +221,11 @@ func runShapes(r *Run, shapes []Shape, o eqOpts, perShapePaths int) {
 		if len(whys) > 0 {
 			fmt.Printf("note: shape %s: %d inconclusive paths, e.g. %s\n", sh.Name, inc, whys[0])
 		}
+		if excl > 0 && ok == 0 && len(diffs) == 0 && inc == 0 {
+			// every path of the shape lies outside the property's quantifier: the shape checks nothing
+			fmt.Printf("note: shape %s: all %d paths are excluded inputs (the shape checks nothing)\n", sh.Name, excl)
+			r.AddCount("shapes_entirely_excluded", 1)
+		}
 		// group by class; within a class try the candidates until one reproduces
 		var order []string
 		byClass := map[string][]eqOutcome{}
